@@ -100,12 +100,19 @@ func (v *ValueStore) Get(ctx context.Context, key string) (*recpb.Record, error)
   ghost at call(expired): $exp = $ret0
 
 func (v *ValueStore) sweep(ctx context.Context, prefix string)
-  props C05
+  props C05 C14
   ghostvar $exp bool = false
   ghostvar $k string = ""
   modifies nothing
   ghost at call(expired): $exp = $ret0
   ghost at before call(discardIfUnchanged): assert($exp && $arg2 == valueDsKey($arg1))
+  # C14: the result set of the datastore query is closed on EVERY return (its
+  # collector goroutine otherwise stays blocked after Close cancelled the sweep)
+  ghostvar $opened bool = false
+  ghostvar $closed bool = false
+  ensures [query-results-closed] imp($opened, $closed)
+  ghost at call(Query): $opened = ($ret1 == nil)
+  ghost at call(Close): $closed = true
 
 # ---- provider store (C07) ------------------------------------------------------
 ghost field (providerSet) $pos map[peer.ID]int
@@ -179,7 +186,12 @@ func (pm *ProviderManager) GetProviders(ctx context.Context, k []byte) ([]peer.A
   ghost at before call(getProviderSetForKey): assert(held(pm.mu) && !pm.stopped && $arg1 == k)
 
 func (pm *ProviderManager) collectExpired(ctx context.Context)
-  props C07
+  props C07 C14
+  ghostvar $opened bool = false
+  ghostvar $closed bool = false
+  ensures [query-results-closed] imp($opened, $closed)
+  ghost at call(Query): $opened = ($ret1 == nil)
+  ghost at call(Close): $closed = true
   ghostvar $err error = nil
   ghostvar $age time.Duration = 0
   modifies *
@@ -192,7 +204,12 @@ func (pm *ProviderManager) collectExpired(ctx context.Context)
   ghost at before call(Delete): assert($err != nil || $age > pm.provideValidity)
 
 func loadProviderSet(ctx context.Context, dstore ds.Datastore, provideValidity time.Duration, k []byte) (*providerSet, error)
-  props C07
+  props C07 C14
+  ghostvar $opened bool = false
+  ghostvar $closed bool = false
+  ensures [query-results-closed] imp($opened, $closed)
+  ghost at call(Query): $opened = ($ret1 == nil)
+  ghost at call(Close): $closed = true
   ghostvar $err error = nil
   ghostvar $age time.Duration = 0
   ghostvar $t time.Time = any
